@@ -83,6 +83,8 @@ func runLock(o *opts) {
 		{"config-get", []string{"config", "get", "cache"}, 1, false, ""},
 		{"config-set", []string{"config", "set", "cache", ".dud/cache"}, 1, false, ""},
 		{"config-get-bad", []string{"config", "get", "nonsense"}, 3, true, ""},
+		// a valid field that is set nowhere (the project has no remote for this one command)
+		{"config-get-unset", []string{"config", "get", "remote"}, 1, false, "noremote"},
 		{"config-path", []string{"config", "path"}, 3, false, ""},
 		{"checksum", []string{"checksum", "@data.txt"}, 3, false, ""},
 		{"checksum-missing", []string{"checksum", "nofile"}, 3, true, ""},
@@ -144,7 +146,22 @@ func runLock(o *opts) {
 					os.Remove(filepath.Join(p.Root, cwd, "dud.pprof"))
 					must(os.Symlink("/dev/full", filepath.Join(p.Root, cwd, "dud.pprof")))
 				}
+				cfgPath := filepath.Join(p.Root, ".dud", "config.yaml")
+				var cfgSaved []byte
+				if c.stdin == "noremote" {
+					cfgSaved, _ = os.ReadFile(cfgPath)
+					var kept []string
+					for _, l := range strings.Split(string(cfgSaved), "\n") {
+						if !strings.HasPrefix(l, "remote:") {
+							kept = append(kept, l)
+						}
+					}
+					must(os.WriteFile(cfgPath, []byte(strings.Join(kept, "\n")), 0o644))
+				}
 				res := p.dud(cwd, args...)
+				if c.stdin == "noremote" {
+					must(os.WriteFile(cfgPath, cfgSaved, 0o644))
+				}
 				if c.stdin == "pprof-full" {
 					os.Remove(filepath.Join(p.Root, cwd, "dud.pprof"))
 				}
